@@ -153,15 +153,18 @@ MUTANTS = [
     M("c03-runloop-go-dispatch", ["C03"], CONN, "		case line := <-conn.in:\n			conn.dispatch(line)", "		case line := <-conn.in:\n			go conn.dispatch(line)"),
     M("c03-001-connected-go", ["C03"], H, "	defer conn.dispatch(&Line{Cmd: CONNECTED, Time: time.Now()})", "	defer func() { go conn.dispatch(&Line{Cmd: CONNECTED, Time: time.Now()}) }()"),
     M("c03-connected-before-nick", ["C03"], H, "	defer conn.dispatch(&Line{Cmd: CONNECTED, Time: time.Now()})", "	conn.dispatch(&Line{Cmd: CONNECTED, Time: time.Now()})"),
-    M("c03-close-disc-before-wait", ["C03"], CONN, """	conn.drainOut()
-	conn.wg.Wait()
-	conn.mu.Unlock()
-	// Dispatch after closing connection but before reinit
-	// so event handlers can still access state information.
-	conn.dispatch(&Line{Cmd: DISCONNECTED, Time: time.Now()})""", """	conn.drainOut()
-	conn.dispatch(&Line{Cmd: DISCONNECTED, Time: time.Now()})
-	conn.wg.Wait()
-	conn.mu.Unlock()"""),
+    M("c03-close-disc-before-wait", ["C03"], CONN, """	done := make(chan struct{})
+	go func() {
+		conn.wg.Wait()
+		close(done)
+	}()
+	for exited := false; !exited; {""", """	done := make(chan struct{})
+	go func() {
+		conn.wg.Wait()
+		close(done)
+	}()
+	go conn.dispatch(&Line{Cmd: DISCONNECTED, Time: time.Now()})
+	for exited := false; !exited; {""", note="DISCONNECTED (also) delivered before the event loop has finished"),
     M("c03-wait-only-last-handler", ["C03"], DISP, """	for _, hn := range hs.getHandlers(ev) {
 		wg.Add(1)""", """	hns := hs.getHandlers(ev)
 	for i, hn := range hns {
@@ -450,16 +453,16 @@ MUTANTS += [
     M("c13-353-at-maps-to-voice", ["C13"], SH, """				case '@':
 					conn.st.ChannelModes(ch.Name, "+o", nick)""", """				case '@':
 					conn.st.ChannelModes(ch.Name, "+v", nick)"""),
-    M("c13-353-no-prefix-strip-halfop", ["C13"], SH, "				case '~', '&', '@', '%', '+':\n					nick = nick[1:]", "				case '~', '&', '@', '+':\n					nick = nick[1:]"),
-    M("c13-join-creates-for-others", ["C13"], SH, """			if !conn.Me().Equals(nk) {
-				logging.Warn("irc.JOIN(): JOIN to unknown channel %s received "+
-					"from (non-me) nick %s", line.Args[0], line.Nick)
-				return
-			}""", """			if !conn.Me().Equals(nk) && nk == nil {
-				logging.Warn("irc.JOIN(): JOIN to unknown channel %s received "+
-					"from (non-me) nick %s", line.Args[0], line.Nick)
-				return
-			}""", note="a tracked user joining an untracked channel creates it", expect="control"),
+    M("c13-353-no-prefix-strip-halfop", ["C13"], SH, "			case '~', '&', '@', '%', '+':\n				nick = nick[1:]", "			case '~', '&', '@', '+':\n				nick = nick[1:]"),
+    M("c13-join-creates-for-others", ["C13"], SH, """		if !conn.Me().Equals(nk) {
+			logging.Warn("irc.JOIN(): JOIN to unknown channel %s received "+
+				"from (non-me) nick %s", line.Args[0], line.Nick)
+			return
+		}""", """		if !conn.Me().Equals(nk) && nk == nil {
+			logging.Warn("irc.JOIN(): JOIN to unknown channel %s received "+
+				"from (non-me) nick %s", line.Args[0], line.Nick)
+			return
+		}""", note="a tracked user joining an untracked channel creates it: a channel is tracked without the client on it (was mislabelled a control while its pattern was stale)"),
     M("c13-stnick-swapped", ["C13"], SH, "	conn.st.ReNick(line.Nick, line.Args[0])", "	conn.st.ReNick(line.Args[0], line.Nick)"),
     M("c13-324-args0", ["C13"], SH, "		conn.st.ChannelModes(line.Args[1], line.Args[2], line.Args[3:]...)", "		conn.st.ChannelModes(line.Args[1], line.Args[2], line.Args[4:]...)"),
     M("c13-topic-on-332-only", ["C13"], SH, "		conn.st.Topic(line.Args[0], line.Args[1])", "		conn.st.Topic(line.Args[0], line.Args[len(line.Args)-1][:0]+line.Args[1])", expect="control"),
@@ -496,7 +499,7 @@ MUTANTS += [
 		} else {"""),
     M("c19-904-no-end", ["C19"], H, """	logging.Warn("SASL authentication failed")
 	conn.Cap(CAP_END)""", """	logging.Warn("SASL authentication failed")"""),
-    M("c19-gotsasl-sticky", ["C19"], H, "	gotSasl := false\n	for _, cap := range caps {", "	gotSasl := conn.saslRemainingData != nil\n	for _, cap := range caps {", expect="control"),
+    M("c19-gotsasl-sticky", ["C19"], H, "	gotSasl := false\n	for _, cap := range caps {", "	gotSasl := conn.saslRemainingData != nil\n	for _, cap := range caps {", note="after a SASL exchange the server ended without asking for the data, a later ACK of other capabilities is not answered with CAP END (visible since 'early outcome' scripts exist; was a control before)"),
     M("c19-request-all-wanted", ["C19"], H, "	reqCaps.Intersect(conn.supportedCaps)\n", "	if reqCaps.Size() > 3 {\n		reqCaps.Intersect(conn.supportedCaps)\n	}\n", note="small wanted sets are requested whole"),
     M("c19-authenticate-without-ack", ["C19"], H, """	if conn.saslRemainingData != nil {
 		data := "+" // plus sign representing empty data""", """	if conn.saslRemainingData == nil && len(line.Args) > 0 && line.Args[0] == "+" {
